@@ -96,6 +96,10 @@ def main():
 
     algo = cfg.pop("algo")
     out = {}
+    if cfg.get("inplace_obs"):
+        # where the environment's observation buffer lies in memory is ambient
+        # state as well (64-byte aligned in run A, not in run B)
+        cfg["inplace_obs"] = "aligned" if ambient == 11 else "misaligned"
     if cfg.pop("prelude", False):
         # process history is ambient state too: another training run of the
         # same routine (other seed, own networks / buffer / environment) is
